@@ -1095,3 +1095,85 @@ Proof.
         apply (f_NS_step p st s acc _ r s' acc _ m X R Logic.I). intros j Hj. apply in_app_or in Hj. destruct Hj as [Hj|[<-|[]]]; [eapply hinstrs_fq; eauto|exact Logic.I].
       * eapply IH; [exact X| |exact H]. apply (f_NS_step p st s acc _ r s acc [IDels bs] m X R Logic.I). intros j [<-|[]]. exact Logic.I.
 Qed.
+
+(** ** beginning a command: thread [t], idle so far, gets the current command [c] and a continuation *)
+Section FIdle.
+  Variables (p' : fpend) (st st' : wstate) (m m' : m14) (t : tid) (c : cmd).
+  Hypothesis R : FRel FNone st m.
+  Hypothesis Hn : nthr st' = nthr st.
+  Hypothesis Ho : forall u, u <> t -> thr st' u = thr st u.
+  Hypothesis Hc : tcont (thr st t) = [].
+  Hypothesis Hcu0 : tcur (thr st t) = None.
+  Hypothesis Hcu : tcur (thr st' t) = Some c.
+  Hypothesis Htp : tpipe (thr st' t) = tpipe (thr st t).
+  Hypothesis Hpp : forall q, psendq (pps st' q) = psendq (pps st q) /\ pcancel (pps st' q) = pcancel (pps st q) /\
+                             pexists (pps st' q) = pexists (pps st q) /\ (phandle (pps st' q) = true -> phandle (pps st q) = true).
+  Hypothesis M2 : m14_recvd m' = m14_recvd m.
+  Hypothesis M3 : m14_dropped m' = m14_dropped m.
+  Hypothesis M4 : forall u, u <> t -> get_tid u (m14_late m') = get_tid u (m14_late m).
+  Hypothesis Hpd : forall u q, p' <> FDropBad u q \/ u = t.
+  Hypothesis O_psend : forall u q x, p' = FSendBad u q x -> u = t /\ c = CPSend q x /\ tcont (thr st' t) = [] /\ exists old, m14_psend m' = old ++ [(q, x)].
+  Hypothesis O_pdrop : forall u q, p' = FDropBad u q -> u = t /\ c = CPDrop q /\ tcont (thr st' t) = [].
+  Hypothesis O_noex : forall q, pexists (pps st q) = false -> on_pipe q (dps p' m') = [] /\ spend q (mcont st') = [].
+  Hypothesis O_ps : forall u, wkr st u -> let q := tpipe (thr st u) in
+    on_pipe q (dps p' m') = on_pipe q (m14_recvd m) ++ rtransit (thr st' u) ++ psendq (pps st q) ++ spend q (mcont st').
+  Hypothesis O_late : wkr st t -> is_late m' t -> pcancel (pps st (tpipe (thr st t))) = true.
+  Hypothesis O_ok : wkr st t -> is_late m' t ->
+    okret c (tret (thr st' t)) /\ forall m0 v, In (IUnlock m0 (URet v)) (tcont (thr st' t)) -> okret c v.
+  Hypothesis O_own_send : forall m0 q x, In (ILock m0 (LPqSend q x)) (tcont (thr st' t)) -> t = main /\ c = CPSend q x.
+  Hypothesis O_sendret : forall q x, c = CPSend q x -> tret (thr st' t) = RUnit.
+  Hypothesis O_dropcmd : forall q, c = CPDrop q -> p' <> FDropBad t q ->
+    (exists m0, In (ILock m0 (LPqCancelSet q)) (tcont (thr st' t))) \/ pcancel (pps st q) = true.
+  Hypothesis O_own_cs : forall m0 q, In (ILock m0 (LPqCancelSet q)) (tcont (thr st' t)) -> t = main /\ c = CPDrop q /\ pexists (pps st q) = true.
+  Hypothesis O_late_cur : is_late m' t -> wcmd c.
+  Hypothesis O_own_ret : forall m0 v, ~ In (IUnlock m0 (URet v)) (tcont (thr st' t)).
+  Hypothesis O_own_pr : forall j, In j (tcont (thr st' t)) ->
+    (forall m0 q, j = ILock m0 (LPqRecv q) \/ j = ICvReacq q -> wkr st t /\ c = CRecv /\ q = tpipe (thr st t)) /\
+    (forall m0 q, j = ILock m0 (LPqCancelGet q) -> wkr st t /\ c = CCancel /\ q = tpipe (thr st t)) /\
+    (forall m0 q x, j = ILock m0 (LPqLSend q x) -> wkr st t /\ c = CLSend x /\ q = tpipe (thr st t)).
+  Hypothesis O_pr : wcmd c -> (prcount (tcont (thr st' t)) <= 1)%nat /\ ((1 <= prcount (tcont (thr st' t)))%nat -> tret (thr st' t) = RUnit).
+
+  Lemma f_idle : FRel p' st' m'.
+  Proof.
+    assert (Tp : forall u, tpipe (thr st' u) = tpipe (thr st u)) by (intro u; destruct (Nat.eq_dec u t) as [->|E]; [exact Htp|rewrite Ho; auto]).
+    assert (Wk : forall u, wkr st' u <-> wkr st u) by (intro u; unfold wkr; rewrite Hn, Tp; tauto).
+    assert (Ps : forall q, psendq (pps st' q) = psendq (pps st q)) by (intro q; apply Hpp).
+    assert (Pc : forall q, pcancel (pps st' q) = pcancel (pps st q)) by (intro q; apply Hpp).
+    assert (Pe : forall q, pexists (pps st' q) = pexists (pps st q)) by (intro q; apply Hpp).
+    assert (La : forall u, u <> t -> (is_late m' u <-> is_late m u)) by (intros u Hu; unfold is_late; rewrite (M4 u Hu); tauto).
+    constructor.
+    - intros u q x E. destruct (O_psend u q x E) as [-> [Ec [Hk Ho']]]. rewrite Hcu, Ec. auto.
+    - intros u q E. destruct (O_pdrop u q E) as [-> [Ec Hk]]. rewrite Hcu, Ec. auto.
+    - intros q. rewrite Pe. intro Hq. destruct (O_noex q Hq) as [A B]. destruct (f_noex _ _ _ R q Hq) as [_ [E2 [E3 [E4 [E5 [E6 _]]]]]].
+      rewrite M2, M3, Ps, Pc. repeat split; auto.
+      destruct (phandle (pps st' q)) eqn:Eh; [|reflexivity]. destruct (Hpp q) as [_ [_ [_ Z0]]]. rewrite (Z0 Eh) in E6. discriminate E6.
+    - intros q. rewrite M3, Pc. apply (f_drop _ _ _ R).
+    - intros u W L. apply Wk in W. rewrite Tp, Pc. destruct (Nat.eq_dec u t) as [->|Hu]; [apply O_late; assumption|].
+      apply (La u Hu) in L. apply (f_late _ _ _ R u W L).
+    - intros u c0 W L Hq. apply Wk in W. destruct (Nat.eq_dec u t) as [->|Hu]; [rewrite Hcu in Hq; inversion Hq; subst c0; apply O_ok; assumption|].
+      apply (La u Hu) in L. rewrite (Ho u Hu) in *. apply (f_ok _ _ _ R u c0 W L Hq).
+    - intros u W. cbn zeta. apply Wk in W. rewrite Tp, M2, Ps. apply (O_ps u W).
+    - intros u m0 q x Hin. destruct (Nat.eq_dec u t) as [->|Hu]; [destruct (O_own_send m0 q x Hin) as [A B]; rewrite Hcu, B; auto|].
+      rewrite (Ho u Hu) in *. apply (f_own_send _ _ _ R u m0 q x Hin).
+    - intros u q x Hq. destruct (Nat.eq_dec u t) as [->|Hu]; [rewrite Hcu in Hq; inversion Hq; subst c; apply (O_sendret q x eq_refl)|].
+      rewrite (Ho u Hu) in *. apply (f_sendret _ _ _ R u q x Hq).
+    - intros u q Hq Np. rewrite Pc. destruct (Nat.eq_dec u t) as [->|Hu]; [rewrite Hcu in Hq; inversion Hq; subst c; apply (O_dropcmd q eq_refl Np)|].
+      rewrite (Ho u Hu) in *. apply (f_dropcmd _ _ _ R u q Hq). discriminate.
+    - intros u m0 q Hin. rewrite Pe. destruct (Nat.eq_dec u t) as [->|Hu]; [destruct (O_own_cs m0 q Hin) as [A [B C]]; rewrite Hcu, B; auto|].
+      rewrite (Ho u Hu) in *. apply (f_own_cs _ _ _ R u m0 q Hin).
+    - intros u L. destruct (Nat.eq_dec u t) as [->|Hu]; [exists c; split; [exact Hcu|apply O_late_cur; exact L]|].
+      apply (La u Hu) in L. rewrite (Ho u Hu). apply (f_late_cur _ _ _ R u L).
+    - intros u m0 v Hin. destruct (Nat.eq_dec u t) as [->|Hu]; [exfalso; exact (O_own_ret m0 v Hin)|].
+      rewrite (Ho u Hu) in *. destruct (f_own_ret _ _ _ R u m0 v Hin) as [A B]. split; [exact A|]. intros z Ez. destruct (B z Ez) as [B1 B2]. split; [exact B1|apply Wk; exact B2].
+    - intros u j Hin. destruct (Nat.eq_dec u t) as [->|Hu].
+      + rewrite Hcu, Htp. destruct (O_own_pr j Hin) as [A [B C]].
+        split; [intros m0 q E; destruct (A m0 q E) as [A1 [A2 A3]]; split; [apply Wk; exact A1|split; [rewrite A2; reflexivity|exact A3]]|split;
+          [intros m0 q E; destruct (B m0 q E) as [B1 [B2 B3]]; split; [apply Wk; exact B1|split; [rewrite B2; reflexivity|exact B3]]
+          |intros m0 q x E; destruct (C m0 q x E) as [C1 [C2 C3]]; split; [apply Wk; exact C1|split; [rewrite C2; reflexivity|exact C3]]]].
+      + rewrite (Ho u Hu) in *. destruct (f_own_pr _ _ _ R u j Hin) as [A [B C]].
+        split; [intros m0 q E; destruct (A m0 q E) as [A1 A2]; split; [apply Wk; exact A1|exact A2]|split;
+          [intros m0 q E; destruct (B m0 q E) as [B1 B2]; split; [apply Wk; exact B1|exact B2]|intros m0 q x E; destruct (C m0 q x E) as [C1 C2]; split; [apply Wk; exact C1|exact C2]]].
+    - intros u c0 Hq Wc. destruct (Nat.eq_dec u t) as [->|Hu]; [rewrite Hcu in Hq; inversion Hq; subst c0; apply (O_pr Wc)|].
+      rewrite (Ho u Hu) in *. apply (f_pr _ _ _ R u c0 Hq Wc).
+  Qed.
+End FIdle.
